@@ -108,7 +108,7 @@ def run(R):
         R.inst("C10.prune.once", "K5 must-not-follow", "at most one eviction per incoming record", len(evb), ok_o)
     pv = R.body("C10.put", PUTV)
     if pv is not None:
-        R.gate("C10.put.prune-first", pv, CallSink("tokio::task::spawn::spawn"), [[CallGuard([PRUNE], ("Ok",), "prune_records_if_needed is Ok")]],
+        R.gate("C10.put.prune-first", pv, CallSink("tokio::task::spawn::spawn", "tokio::task::blocking::spawn_blocking", "tokio::runtime::handle::Handle::spawn", "tokio::runtime::handle::Handle::spawn_blocking"), [[CallGuard([PRUNE], ("Ok",), "prune_records_if_needed is Ok")]],
                descr="the disk write is spawned only after capacity was granted")
         prep(pv)
         # an eviction is always paid for by a write: once capacity was granted (and possibly a record evicted), every path to a
@@ -116,7 +116,7 @@ def run(R):
         gpr = CallGuard([PRUNE], ("Ok",), "prune_records_if_needed is Ok")
         n_, acc_, _ = gpr.edges(pv)
         if acc_:
-            R.must_pass("C10.put.prune-last", pv, [("spawn(write)", CallSink("tokio::task::spawn::spawn"))], from_blocks=tuple(d for _, d in final_edges(cfg_of(pv), acc_)),
+            R.must_pass("C10.put.prune-last", pv, [("spawn(write)", CallSink("tokio::task::spawn::spawn", "tokio::task::blocking::spawn_blocking", "tokio::runtime::handle::Handle::spawn", "tokio::runtime::handle::Handle::spawn_blocking"))], from_blocks=tuple(d for _, d in final_edges(cfg_of(pv), acc_)),
                         descr="after capacity was granted (a record may have been evicted) the record is always written")
         else:
             R.viol("C10.put.prune-last", "guard-missing", "put_verified does not branch on prune_records_if_needed", pv, pv.lines[0])
